@@ -114,6 +114,7 @@ func genState() *rapid.Generator[[]uint64] {
 
 func TestC09(t *testing.T) {
 	s := newSuite("C09")
+	compiledEvery = 80 // a compiled Poseidon permutation costs ~1 s
 	r := s.r
 	defer r.Flush()
 	r.Rule("permutation: 12-element states (all-equal edge values incl. 0 and p-1, single-hot edge values, random/edge mixtures) vs the naive reference permutation; HashNoPad on inputs of length 0..40 whose elements are canonical or value+k*p (k up to 2^60; inputs are reduced first) vs the reference sponge on the residues; HashNToMNoPad with 1..20 outputs; the extension-field layer helpers composed as in the Poseidon gate vs the reference fast schedule over GF(p^2); uniqueness: every dynamic hint call of one permutation (1650) substituted by generated dishonest tuples must be rejected.  Non-trivial = state not all-zero / input length >= 1 / substituted tuple differs; distinct = inputs (+ hint index, strategy).")
